@@ -196,7 +196,7 @@ func c05Guard(cur [][]string, ops []mOp, pt string) bool {
 
 func init() {
 	register("C05", func(c *Ctx) {
-		c.Rule = "state-space enumeration: every reachable ordered list of grouping rules over a 4-rule universe (with a cycle) x an alphabet of ~30 calls (single/batch/Ex add, remove, update, batch update, filtered removal, ClearPolicy, LoadPolicy, Save+Load, DeleteUser, DeleteRole, calls on the other definition), for g and g2 of an RBAC model (plain manager) and g of a domain model (domain manager), auto-save on; thorough adds depth-2 continuations from every state. Distinct = (target, state, call); non-trivial = the state or the call involves at least one grouping rule."
+		c.Rule = "state-space enumeration: every reachable ordered list of grouping rules over a 4-rule universe (with a cycle) x an alphabet of ~30 calls (single/batch/Ex add, remove, update, batch update, filtered removal, ClearPolicy, LoadPolicy, Save+Load, DeleteUser, DeleteRole, calls on the other definition), for g and g2 of an RBAC model (plain manager) and g of a domain model (domain manager), auto-save on; thorough adds depth-2 continuations from every state. Distinct = (target, state, call); non-trivial = the state or the call involves at least one grouping rule. Additions: g2 links observed over the union of both name sets; identity / chain updates compared with the model outside the F08 guard (no fresh-enforcer predicate there); memory-only rules (auto-save off) followed by a reload from a store that lacks them."
 		targets := []c05Target{
 			{conf: machRBAC, pt: "g", rules: [][]string{{"alice", "admin"}, {"bob", "admin"}, {"admin", "root"}, {"root", "alice"}},
 				other: "g2", otherR: [][]string{{"data1", "grp"}}, names: []string{"alice", "bob", "admin", "root", "data1", "grp"}},
